@@ -39,6 +39,14 @@ class SiteRec:
     stmt: dict
 
 
+def _layout_in(md: dict):
+    """input layout of a method: one field `d`, or (multi-field methods) fields f0, f1, ... of the given
+    widths in declaration order; the flat argument value is the concatenation, f0 in the low bits"""
+    if md.get("fields"):
+        return [(f"f{k}", w) for k, w in enumerate(md["fields"])]
+    return _layout(md["iw"])
+
+
 def _layout(w: int):
     return [("d", w)] if w > 0 else []
 
@@ -94,7 +102,7 @@ def _pred(kind: str, c: int = 0):
 
 
 def _make_method(top, md):
-    top.methods[md["ref"]] = Method(name=md["ref"], i=_layout(md["iw"]), o=_layout(md["ow"]))
+    top.methods[md["ref"]] = Method(name=md["ref"], i=_layout_in(md), o=_layout(md["ow"]))
 
 
 def _make_group(top, g):
@@ -201,7 +209,7 @@ class GenModule(Elaboratable):
 
         def outval(arg):
             kind = s["out"][0]
-            d = arg.d if md["iw"] > 0 else C(0, 1)
+            d = arg.as_value() if md["iw"] > 0 else C(0, 1)
             if kind == "const":
                 return C(s["out"][1], max(ow, 1))
             if kind == "loc":
@@ -246,7 +254,9 @@ class GenModule(Elaboratable):
         n0 = len(caller.method_calls[meth]) if meth in caller.method_calls else 0
         if md["iw"] > 0:
             argv = top.inp(s["arg"]) if isinstance(s["arg"], str) else C(int(s["arg"]), md["iw"])
-            if s.get("kw"):
+            if md.get("fields"):
+                ret = self._call_fields(m, obj, md, argv, s.get("argform", "dict"), kw, s["site"])
+            elif s.get("kw"):
                 ret = obj(m, d=argv, **kw)
             else:
                 ret = obj(m, {"d": argv}, **kw)
@@ -266,6 +276,28 @@ class GenModule(Elaboratable):
             res = Signal(md["ow"], name=f"res{sid}")
             m.d.top_comb += res.eq(ret.d)
         top.sites[sid] = SiteRec(sid, caller, meth, tup, w, wa, res, s)
+
+    def _call_fields(self, m, obj, md, argv, form, kw, sid):
+        """call of a method with a multi-field input layout; `argv` is the flat argument (f0 in the low bits).
+        forms: dict / keyword arguments / a positional View of the callee's own layout / a positional View of a
+        layout with the same field names declared in the opposite order (fields are matched by name)."""
+        from amaranth.lib import data
+
+        parts, lo = {}, 0
+        for k, w in enumerate(md["fields"]):
+            parts[f"f{k}"] = argv[lo : lo + w]
+            lo += w
+        if form == "kw":
+            return obj(m, **parts, **kw)
+        if form in ("view", "view_same"):
+            names = list(parts)
+            order = names[::-1] if form == "view" else names
+            widths = dict(zip(names, md["fields"]))
+            v = Signal(data.StructLayout({n: widths[n] for n in order}), name=f"argview{sid}")
+            for n in names:
+                m.d.top_comb += getattr(v, n).eq(parts[n])
+            return obj(m, v, **kw)
+        return obj(m, parts, **kw)
 
     def s_provide(self, m, s):
         self.top.methods[s["ref"]].provide(self.top.methods[s["target"]])
